@@ -131,3 +131,52 @@ Lemma zx_result :
   fst (flatten_full_stable GA GT GTT zx_hd fx_sp fx_ip ax_ap ax_inf ay_inp) = FOk /\
   fst (flatten_full_stable GA GT GTT zx_hd fx_sp fx_ip ax_ap zx_inf ex_inp) = FOk.
 Proof. vm_compute. repeat split. Qed.
+
+(* ---- input level ----------------------------------------------------------------------------------- *)
+
+Lemma c12_mixed_input hd sp ip ap inf inp r :
+  sa_file hd inp ->
+  (exists b, In b inp /\ b_entries b <> []) -> (exists b, In b inp /\ b_adv b <> []) ->
+  Forall traces_nodup inp ->
+  Forall (fun b => hd_adv (hd (b_sig b)) = false -> Arith.validate_batch GA (f_batch GA (hp_of hd) (fp_of sp) b) = Arith.ROk) inp ->
+  Forall (hdr_pair hd) (ids inp) ->
+  Forall (fun p => hd_adv (hd (fst p)) = true /\ hd_ok (hd (fst p)) = true) (adv_ids inp) ->
+  sum_ids (db_e GT sp) inp <= Arith.t_file_limit GA -> sum_ids (cr_e GT sp) inp <= Arith.t_file_limit GA ->
+  BuildIAT.zlen (adv_ids inp) <= 9998 ->
+  cat_rule inp ->
+  flatten_full_spec GA GT GTT hd sp ip ap inf inp r ->
+  fst r = FErrCreate.
+Proof.
+  intros. eapply (flatten_mixed_input GA GT GTT gen_agree gtt_guard); eauto using c12_limits.
+Qed.
+
+(* the file of zx_result satisfies every hypothesis *)
+Lemma zx_hyps :
+  sa_file zx_hd zx_inp /\
+  (exists b, In b zx_inp /\ b_entries b <> []) /\ (exists b, In b zx_inp /\ b_adv b <> []) /\
+  Forall traces_nodup zx_inp /\
+  Forall (fun b => hd_adv (zx_hd (b_sig b)) = false -> Arith.validate_batch GA (f_batch GA (hp_of zx_hd) (fp_of fx_sp) b) = Arith.ROk) zx_inp /\
+  Forall (hdr_pair zx_hd) (ids zx_inp) /\
+  Forall (fun p => hd_adv (zx_hd (fst p)) = true /\ hd_ok (zx_hd (fst p)) = true) (adv_ids zx_inp) /\
+  sum_ids (db_e GT fx_sp) zx_inp <= Arith.t_file_limit GA /\ sum_ids (cr_e GT fx_sp) zx_inp <= Arith.t_file_limit GA /\
+  BuildIAT.zlen (adv_ids zx_inp) <= 9998 /\
+  cat_rule zx_inp.
+Proof.
+  split.
+  { unfold sa_file, zx_inp, ay_inp, ex_inp. cbn [app].
+    repeat (apply Forall_cons; [split; [reflexivity|first [left; split; [reflexivity|split; [cbn; congruence|reflexivity]]
+                                                          |right; split; [reflexivity|split; [reflexivity|cbn; congruence]]]]|]).
+    apply Forall_nil. }
+  split; [eexists; split; [right; right; left; reflexivity|cbn; congruence]|].
+  split; [eexists; split; [left; reflexivity|cbn; congruence]|].
+  split; [repeat constructor; cbn; tauto|].
+  split; [repeat constructor; intros K; try (vm_compute in K; discriminate K); vm_compute; reflexivity|].
+  split; [repeat constructor; vm_compute; reflexivity|].
+  split; [repeat constructor; vm_compute; reflexivity|].
+  split; [vm_compute; discriminate|]. split; [vm_compute; discriminate|]. split; [vm_compute; discriminate|].
+  split; [|split].
+  - repeat constructor; cbn; intros; intuition (subst; reflexivity).
+  - intros a b Ha Hb Hsg. cbn in Ha, Hb.
+    destruct Ha as [<-|[<-|[<-|[<-|[]]]]], Hb as [<-|[<-|[<-|[<-|[]]]]]; try reflexivity; cbn in Hsg; discriminate Hsg.
+  - repeat constructor; cbn; tauto.
+Qed.
